@@ -1,17 +1,41 @@
 (* C08 - Type following yields the declared types.
    Only statements here; proofs live in Proofs/TypeFollowTypes.v.
 
-   Full statement, NOT proved (checked by the correspondence of harness/props/c08.py, where every generated
-   expression carries the type its annotations imply, computed independently of the follower):
-     follow_types_agree : wt ct ft G e t -> exists e' ev, follow W G e = Ok (e', t, ev)
-       for a separately written declarative typing relation [wt] over the supported subset.
-   Proved: the item types of the three stream operators (for every class model, environment, lambda), the arithmetic
-   promotion table, C10's [where_bool_shapes] (comparisons and and/or are bool); by evaluation (Examples): type-variable
-   resolution through generic subclasses, renamed / reordered parameters, fixed subclasses and Iterable subclasses
-   (the F16 witnesses), over the class-table abstraction of util_types.py as fixed by fixes/F16.diff. *)
+   Whole expressions (Proofs/TypeFollowTyping.v): [wt W G e t] is a declarative typing relation over the supported
+   subset (names, constants, comparisons, and/or, int/float arithmetic, conditionals, method calls through the return
+   annotation with the class type variables substituted along the base chain, First / Count / other methods of
+   registered collection classes, Select / SelectMany / Where with a lambda, subscripts, constant indices into tuple
+   literals, fields of dictionary literals and of dictionary- or dataclass-typed values, registered functions);
+   [follow_types_agree]: the follower accepts every such expression with exactly that type; [wt_deterministic];
+   [stream_types_agree] / [stream_item_types] for the stream operators themselves.
+   The base-chain substitution inside [wt] is the model of util_types.py ([get_method_and_class],
+   [resolve_type_vars], [unwrap_iterable] of Model/TypeDefs.v, as fixed by fixes/F16.diff), tied to the code by the
+   correspondence on random generic class models; its behaviour on the F16 witnesses is evaluated below. *)
 From FA.Base Require Import PyAst Value.
+From FA.Gen Require Import TablesTypes.
 From FA.Model Require Import TypeDefs TypeFollow.
-From FA.Proofs Require Import TypeFollowFacts TypeFollowTypes.
+From FA.Proofs Require Import TypeFollowFacts TypeFollowTypes TypeFollowFill TypeFollowNormalised TypeFollowSites TypeFollowTyping.
+
+(* every class table / function table / environment / expression of the supported subset *)
+Theorem follow_types_agree : forall (W : world) (G : tenv) (e : expr) (t : ty),
+  wt W G e t -> exists e' ev, follow W G e = Ok (e', t, ev).
+Proof. exact follow_types_agree_x. Qed.
+Print Assumptions follow_types_agree.
+
+Theorem wt_deterministic : forall (W : world) (G : tenv) (e : expr) (t t' : ty),
+  wt W G e t -> wt W G e t' -> t = t'.
+Proof. exact wt_deterministic_x. Qed.
+Print Assumptions wt_deterministic.
+
+(* the item type of the stream returned by Select / SelectMany / Where for a well-typed lambda
+   ([op_result]: result type / element type / item type provided the filter is bool) *)
+Theorem stream_types_agree : forall (W : world) op G0 item p b tb t,
+  wt W ((p, item) :: G0) b tb ->
+  check_ast (Lambda [p] (out_of W ((p, item) :: G0) b)) = true ->
+  op_result (w_ct W) op item tb = Some t ->
+  exists lam ev, stream_op W op G0 item (Lambda [p] b) = Ok (lam, t, ev).
+Proof. exact stream_types_agree_x. Qed.
+Print Assumptions stream_types_agree.
 
 (* Select gives the lambda's result type, SelectMany its element type, Where keeps the item type and only accepts a
    filter typed bool; the emitted lambda is the followed one and the events are those of its body *)
@@ -67,3 +91,104 @@ Example generic_inheritance :
   follow W4 [("e", TCls "Ev" [])] (call0 (call0 (Name "e") "mid") "items") = Ok (call0 (call0 (Name "e") "mid") "items", TIter TInt, []) /\
   stream_op W4 OpSelectMany [] (TCls "Ev" []) (Lambda ["e"] (call0 (Name "e") "it")) = Ok (Lambda ["e"] (call0 (Name "e") "it"), TFloat, []).
 Proof. repeat split; vm_compute; reflexivity. Qed.
+
+(* ---------- non-vacuity of [wt] ---------- *)
+
+(* through a generic subclass with reordered parameters: e.mid().first() : int *)
+Example wt_generic_subclass :
+  wt W4 [("e", TCls "Ev" [])] (call0 (call0 (Name "e") "mid") "first") TInt.
+Proof.
+  eapply (wt_method W4 _ (call0 (Name "e") "mid") "first" [] [] [] (TCls "Mid" [TStr; TInt]) [] [] "Base").
+  - eapply (wt_method W4 _ (Name "e") "mid" [] [] [] (TCls "Ev" []) [] [] "Ev").
+    + constructor. reflexivity.
+    + split; reflexivity.
+    + constructor.
+    + constructor.
+    + vm_compute. reflexivity.
+    + vm_compute. reflexivity.
+    + eexists. vm_compute. reflexivity.
+    + reflexivity.
+  - split; reflexivity.
+  - constructor.
+  - constructor.
+  - vm_compute. reflexivity.
+  - vm_compute. reflexivity.
+  - eexists. vm_compute. reflexivity.
+  - reflexivity.
+Qed.
+
+(* a typed collection with the library's operators: e.Jets().Where(lambda j: j.pt() > 1).Count() ... *)
+Definition os_params := [P "self" None; P "f" None; P "known_types" (Some (CObj "other:dict" "{}"))].
+Definition OP (n : string) (r : ty) (o : opkind) : method :=
+  {| m_name := n; m_params := os_params; m_ret := Some r; m_cb := None; m_op := o |}.
+Definition ct5 : classtab :=
+  [ {| c_name := "OSIM"; c_params := ["T"]; c_base := Some (TCls "ObjectStream" [TVar "T"]); c_parent := Some "ObjectStream";
+       c_methods := [ {| m_name := "First"; m_params := [P "self" None]; m_ret := Some (TVar "T"); m_cb := None; m_op := OpFirst |};
+                      {| m_name := "Count"; m_params := [P "self" None]; m_ret := Some TInt; m_cb := None; m_op := OpStub |} ];
+       c_props := []; c_cb := None; c_fields := None; c_collection := true |};
+    {| c_name := "ObjectStream"; c_params := ["T"]; c_base := None; c_parent := None;
+       c_methods := [ OP "Select" (TCls "ObjectStream" [TVar "S"]) OpSelect;
+                      OP "SelectMany" (TCls "ObjectStream" [TVar "S"]) OpSelectMany;
+                      OP "Where" (TCls "ObjectStream" [TVar "T"]) OpWhere ];
+       c_props := []; c_cb := None; c_fields := None; c_collection := false |};
+    K "Jet" [] None None [M "pt" TFloat];
+    K "Event" [] None None [M "Jets" (TIter (TCls "Jet" []))] ].
+Definition W5 : world := {| w_ct := ct5; w_ft := ft_default; w_cb := [] |}.
+Definition jets := call0 (Name "e") "Jets".
+Definition pt_gt := Compare (call0 (Name "j") "pt") [CGt] [Const (CInt 1)].
+
+Example wt_jets : wt W5 [("e", TCls "Event" [])] jets (TIter (TCls "Jet" [])).
+Proof.
+  eapply (wt_method W5 _ (Name "e") "Jets" [] [] [] (TCls "Event" []) [] [] "Event");
+    try (constructor; reflexivity); try reflexivity; try (split; reflexivity); try (vm_compute; reflexivity).
+  eexists. vm_compute. reflexivity.
+Qed.
+
+Example wt_pt_gt : wt W5 [("j", TCls "Jet" []); ("e", TCls "Event" [])] pt_gt TBool.
+Proof.
+  eapply wt_compare with (tl := TFloat) (ts := [TInt]).
+  - eapply (wt_method W5 _ (Name "j") "pt" [] [] [] (TCls "Jet" []) [] [] "Jet");
+      try (constructor; reflexivity); try reflexivity; try (split; reflexivity); try (vm_compute; reflexivity).
+    eexists. vm_compute. reflexivity.
+  - repeat constructor.
+Qed.
+
+Example wt_where_select :
+  wt W5 [("e", TCls "Event" [])]
+     (Call (Attr (Call (Attr jets "Where") [Lambda ["j"] pt_gt] [] []) "Select") [Lambda ["j"] (call0 (Name "j") "pt")] [] [])
+     (TIter TFloat).
+Proof.
+  eapply (wt_operator W5 _ _ "Select" "j" _ (TIter (TCls "Jet" [])) TFloat "OSIM" "ObjectStream").
+  - (* the receiver: Where keeps the element type *)
+    eapply (wt_operator W5 _ jets "Where" "j" pt_gt (TIter (TCls "Jet" [])) TBool "OSIM" "ObjectStream").
+    + exact wt_jets.
+    + split; reflexivity.
+    + reflexivity.
+    + reflexivity.
+    + vm_compute. reflexivity.
+    + reflexivity.
+    + right; right; reflexivity.
+    + reflexivity.
+    + exact wt_pt_gt.
+    + vm_compute. reflexivity.
+    + reflexivity.
+  - split; reflexivity.
+  - reflexivity.
+  - reflexivity.
+  - vm_compute. reflexivity.
+  - reflexivity.
+  - left; reflexivity.
+  - reflexivity.
+  - eapply (wt_method W5 _ (Name "j") "pt" [] [] [] (TCls "Jet" []) [] [] "Jet");
+      try (constructor; reflexivity); try reflexivity; try (split; reflexivity); try (vm_compute; reflexivity).
+    eexists. vm_compute. reflexivity.
+  - vm_compute. reflexivity.
+  - reflexivity.
+Qed.
+
+(* ... and the theorem delivers what evaluation confirms *)
+Example where_select_followed :
+  exists e' ev, follow W5 [("e", TCls "Event" [])]
+     (Call (Attr (Call (Attr jets "Where") [Lambda ["j"] pt_gt] [] []) "Select") [Lambda ["j"] (call0 (Name "j") "pt")] [] [])
+     = Ok (e', TIter TFloat, ev).
+Proof. exact (follow_types_agree _ _ _ _ wt_where_select). Qed.
